@@ -58,7 +58,12 @@ Inductive case :=
                (obs_filed : list (name * list ipaddr)) (obs_servers obs_dialled : list ipaddr) (own_queried : bool)
   (* dnsutil.FilterRRsToZone(records owned by [owners], auth): indices kept (the filter Resolver.answer
      applies to the upstream Answer section before anything is relayed or cached) *)
-| CaseZoneFilter (auth : name) (owners : list name) (obs_kept : list N).
+| CaseZoneFilter (auth : name) (owners : list name) (obs_kept : list N)
+  (* the two sites composed: Conn.Exchange on scripted replies, then extractDelegationInfo + checkGlueRR on what it
+     accepted (origin of the bailiwick test = the accepted message's question): which reply was accepted, the
+     servers and the hosts glue was taken for *)
+| CaseExchGlue (stream : bool) (id : N) (q : question) (replies : list fmsg) (ipv6 : bool) (local : list ipaddr) (level : nat)
+               (obs_accept : option nat) (obs_servers : list ipaddr) (obs_found4 : list name).
 
 (* ---------------------------------------------------------------- helpers *)
 Fixpoint list_eqb {A} (eqb : A -> A -> bool) (a b : list A) : bool :=
@@ -234,6 +239,12 @@ Definition check_case (c : case) : bool :=
       | None => match filed, srv, dl with [], [], [] => true | _, _, _ => false end
       end && negb ownq
   | CaseZoneFilter auth owners kept => list_eqb N.eqb (kept_indices (is_sub auth) owners 0) kept
+  | CaseExchGlue stream id q replies ipv6 local level acc srv f4 =>
+      match exchange_then_glue stream id q replies ipv6 local level with
+      | Some (i, Some g) => opt_eqb Nat.eqb acc (Some i) && list_eqb ipaddr_eqb (gr_servers g) srv && same_names (gr_found4 g) f4
+      | Some (_, None) => false
+      | None => match acc, srv, f4 with None, [], [] => true | _, _, _ => false end
+      end
   end.
 
 Definition spec_glue_source (local : list ipaddr) (host : name) (a : ipaddr) (evs : list glue_event) : bool :=
@@ -337,4 +348,17 @@ Definition spec_case (c : case) : bool :=
       forallb (spec_addr_ok local) srv && forallb (spec_addr_ok local) dl && negb ownq
   | CaseZoneFilter auth owners kept =>
       forallb (fun i => match nth_error owners (N.to_nat i) with Some o => spec_in_zone auth o | None => false end) kept
+  | CaseExchGlue stream id q replies ipv6 local level acc srv f4 =>
+      (* what is accepted carries the outstanding ID and question; glue is taken only inside the zone cut out of the
+         ASKED name at the level, with usable addresses *)
+      match acc with
+      | Some i => match nth_error replies i with
+                  | Some f => (w_id (f_wire f) =? id) && spec_question_ok q (w_qs (f_wire f))
+                  | None => false
+                  end
+      | None => match srv, f4 with [], [] => true | _, _ => false end
+      end &&
+      (let zone := firstn level (q_name q) in
+       forallb (fun n => Nat.eqb (length zone) level && spec_in_zone zone n) f4) &&
+      forallb (spec_addr_ok local) srv
   end.
